@@ -18,6 +18,9 @@ fn escape_go_string(value: &str) -> String {
             '\n' => escaped.push_str("\\n"),
             '\r' => escaped.push_str("\\r"),
             '\t' => escaped.push_str("\\t"),
+            other if other.is_control() => {
+                escaped.push_str(&format!("\\u{:04x}", other as u32));
+            }
             other => escaped.push(other),
         }
     }
